@@ -9,11 +9,12 @@ from .common import Broken
 
 ADDR = {"h1": "10.1.1.1", "h2": "10.1.1.2", "h3": "10.1.2.1", "h4": "10.1.2.2", "hx": "10.9.9.9"}
 NETS = {"n12": ("10.1.1.0", "255.255.255.252"), "n34": ("10.1.2.0", "255.255.255.252"),
-        "n14": ("10.1.0.0", "255.255.0.0")}
+        "n14": ("10.1.0.0", "255.255.0.0"),
+        "n13": ("10.1.0.0", "255.255.255.0")}        # routes only: the network address of n14 with a longer mask
 GW = {"gA": "10.0.0.1", "gB": "10.0.0.2"}
 ADDR6 = {"h1": "2001:db8:1:1::1", "h2": "2001:db8:1:1::2", "h3": "2001:db8:1:2::1",
          "h4": "2001:db8:1:2::2", "hx": "2001:db8:9::9"}
-NETS6 = {"n12": "2001:db8:1:1::/64", "n34": "2001:db8:1:2::/64", "n14": "2001:db8:1::/48"}
+NETS6 = {"n12": "2001:db8:1:1::/64", "n34": "2001:db8:1:2::/64", "n14": "2001:db8:1::/48", "n13": "2001:db8:1::/64"}
 GW6 = {"gA": "2001:db8::a", "gB": "2001:db8::b"}
 RADDR = {v: k for k, v in ADDR.items()}
 RNETS = {v: k for k, v in NETS.items()}
